@@ -10,6 +10,8 @@ from . import core
 
 
 def main():
+    import faulthandler, signal
+    faulthandler.register(signal.SIGUSR1, all_threads=True)     # `kill -USR1 <pid>` prints where the check is
     ap = argparse.ArgumentParser()
     ap.add_argument('pid')
     ap.add_argument('--tier', default=os.environ.get('VERIF_TIER', 'quick'))
